@@ -33,7 +33,8 @@ def run(c):
                    "PMPI log of setup/solve: FifoMatch, Completed, CollectiveLockstep": "V",
                    "iterations / residual bits identical on all ranks; ReturnOK with the true long-double residual; convergence; "
                    "smoothed aggregation / over_interp 1.5 Galerkin vs serial kernels (1e-12); near-null-space (1e-12)": "O",
-                   "termination of every mpirun under timeout (hang = violation)": "O"}
+                   "termination of every mpirun under timeout (hang = violation)": "O",
+                   "subdomain_deflation with a different num_def_vec per rank: same truthfulness / rank-consistency clauses, plain and AddressSanitizer builds (a sanitizer report = recorder crash = violation)": "O"}
     c.assumptions = ["integer / dyadic data where exactness is claimed; eps_strong = 1/4 or 1/2 so the strength test is exact in doubles",
                      "true residual is computed by the harness in long double on the gathered solution",
                      "ReturnOK slack: reported <= tol => true <= 10 tol (measured |reported - true| <= 0.02 decades over seeds 0..5)",
@@ -65,7 +66,9 @@ def run(c):
         return c.tlc_trace("C12Trace", t, label=label, chunk=chunk, env=XSS, heap="3g")
 
     def code():
-        rs = c.build("record_dist_solve", ["record_dist_solve.cpp"], mpi=True)
+        # plain and AddressSanitizer builds side by side (the sanitizer build runs the subdomain-deflation mode only)
+        rs, rsa = c.build_many([dict(name="record_dist_solve", sources=["record_dist_solve.cpp"], mpi=True),
+                                dict(name="record_dist_solve_asan", sources=["record_dist_solve.cpp"], mpi=True, san="address")])
         mca = {"OMPI_MCA_mpi_yield_when_idle": 1, "OMPI_MCA_hwloc_base_binding_policy": "none"}
         stride = {1: 1, 2: 1 if th else 4, 3: 2 if th else 8, 4: 8 if th else 32, 5: 16 if th else 64, 6: 64, 7: 128, 8: 256}
         jobs = []
@@ -73,10 +76,16 @@ def run(c):
             jobs.append((n, "aggr", {"VERIF_STRIDE": stride[n]}, 1500))
             jobs.append((n, "amg", {"VERIF_SHIM": 1 if n in (2, 3) else 0}, 12))
             jobs.append((n, "solve", {"VERIF_SHIM": 1 if n == 3 else 0}, 8))
+            if n >= 2:
+                # a different number of deflation vectors on every rank, strips and irregular partitions
+                jobs.append((n, "sdd", {}, 20))
+                if n in (2, 3, 5, 8):
+                    jobs.append((n, "sdd-asan", {"ASAN_OPTIONS": "detect_leaks=0"}, 20))
 
         def one(job):
             n, mode, env, chunk = job
-            t = c.record(rs, [mode], mpi=n, env=dict(mca, **env), out=c.path("s-%s-%d.ndjson" % (mode, n)), timeout=2400 if th else 900,
+            binary, arg = (rsa, "sdd") if mode == "sdd-asan" else (rs, mode)
+            t = c.record(binary, [arg], mpi=n, env=dict(mca, **env), out=c.path("s-%s-%d.ndjson" % (mode, n)), timeout=2400 if th else 900,
                          hang_is_violation=True, sig={"np": n, "mode": mode})
             res = validate(t, "%s@%dranks" % (mode, n), chunk)
             if res is not None and mode == "aggr":
